@@ -149,6 +149,8 @@ class State:
             if isinstance(o, list):
                 return R("list", items=tuple(self.freeze(x) for x in o))
             d = o[2] if isinstance(o, tuple) else o
+            if v.kind == "obj":
+                return R("obj", **{str(k): self.freeze(x) for k, x in d.items()})
             return R("dict", items=tuple((self.freeze(k), self.freeze(x)) for k, x in d.items()))
         if isinstance(v, K) and isinstance(v.v, tuple):
             return K(tuple(self.freeze(x) for x in v.v))
@@ -215,6 +217,10 @@ class Interp:
             obj = self.eval(e.value, st)
             if isinstance(obj, R) and e.attr in obj.fields:
                 return obj.fields[e.attr]
+            if isinstance(obj, Ref) and obj.kind == "obj":
+                d = st.deref(obj)
+                if e.attr in d:
+                    return d[e.attr]
             if self.on_attr:
                 v = self.on_attr(obj, e.attr, e, st)
                 if v is not None:
@@ -248,7 +254,12 @@ class Interp:
             result: Optional[bool] = True
             for op, right_e in zip(e.ops, e.comparators):
                 right = self.eval(right_e, st)
-                r = self._compare(op, left, right)
+                if isinstance(right, Ref) and isinstance(op, (ast.In, ast.NotIn)) and not isinstance(left, U):
+                    seq = self.iterate(right, st)
+                    hit = seq is not None and any(x == left for x in seq)
+                    r: Optional[bool] = (not hit) if isinstance(op, ast.NotIn) else hit
+                else:
+                    r = self._compare(op, left, right)
                 if r is None:
                     key = norm(e)
                     if key in st.assume:
@@ -285,6 +296,16 @@ class Interp:
             fval: Optional[V] = None
             if isinstance(e.func, ast.Attribute):
                 fval = self.eval(e.func.value, st)
+            elif isinstance(e.func, ast.Name) and e.func.id in st.env:
+                # a call through a local variable that holds a function token
+                held = st.env[e.func.id]
+                if isinstance(held, S) and ":" in held.name:
+                    fname = held.name.split(":", 1)[1]
+                    if held.name.startswith("mod:"):
+                        fname = held.name[4:]
+                    elif held.name.startswith("func:"):
+                        fname = held.name[5:]
+                fval = held
             args = [self.eval(a, st) for a in e.args if not isinstance(a, ast.Starred)]
             kwargs = {k.arg: self.eval(k.value, st) for k in e.keywords if k.arg}
             # built-in record operation: x.replace(field=value)
@@ -352,6 +373,8 @@ class Interp:
                 v = self.on_subscript(obj, key, e, st)
                 if v is not None:
                     return v
+            if isinstance(obj, R) and obj.kind in ("elem", "proj") and isinstance(key, K):
+                return R("proj", of=obj, index=key)
             return U(f"subscript {norm(e)}")
         if isinstance(e, ast.JoinedStr):
             return U("fstring")
@@ -359,6 +382,14 @@ class Interp:
             return self.comprehension(e, st)
         if isinstance(e, ast.Starred):
             return R("starred", of=self.eval(e.value, st))
+        if isinstance(e, ast.Yield):
+            v = self.eval(e.value, st) if e.value is not None else K(None)
+            if st.pending is None:
+                st.effects.append(("yield", st.freeze(v)))
+            return U("sent value")
+        if isinstance(e, ast.YieldFrom):
+            st.effects.append(("yield-from", st.freeze(self.eval(e.value, st))))
+            return U("yield from")
         if isinstance(e, ast.Dict):
             if all(k is not None for k in e.keys):
                 pairs = [(self.eval(k, st), self.eval(v, st)) for k, v in zip(e.keys, e.values)]
@@ -676,6 +707,9 @@ class Interp:
                     self._assign(t, U("unpack"), st)
         elif isinstance(target, ast.Attribute):
             obj = self.eval(target.value, st)
+            if isinstance(obj, Ref) and obj.kind == "obj":
+                st.deref(obj)[target.attr] = v
+                return
             st.effects.append(("setattr", norm(target.value), target.attr, v, obj))
             if isinstance(obj, R) and isinstance(target.value, ast.Name):
                 st.env[target.value.id] = obj.replace(**{target.attr: v})
@@ -828,6 +862,16 @@ class Interp:
                         fin.append(f)
                 res = fin
             return res
+        if isinstance(s, ast.With):
+            for it in s.items:
+                cm = self.eval(it.context_expr, st)
+                st.effects.append(("with-enter", norm(it.context_expr), cm))
+                if it.optional_vars is not None:
+                    self._assign(it.optional_vars, R("entered", cm=cm), st)
+            outs_c = self.run(s.body, st)
+            for o in outs_c:
+                o.effects.append(("with-exit", norm(s.items[0].context_expr), "raise" if o.term is not None and o.term[0] == "raise" else "normal"))
+            return outs_c
         if isinstance(s, ast.While):
             live, outs_w = [st], []
             for _ in range(64):
